@@ -304,6 +304,14 @@ func (ri *RedisInput) syncMeta(ctx context.Context, redisCli *redis.StandaloneRe
 		ri.logger.Errorf("channel SetRunId error : offset(%v), err(%v)", sOffset, err)
 		return
 	}
+	if isFullSync {
+		// the position stored at the output is void, SetRunId must not carry it over to the new run id
+		err = ri.output.ResetStartPoint(ctx)
+		if err != nil {
+			ri.logger.Errorf("output ResetStartPoint error : offset(%v), err(%v)", sOffset, err)
+			return
+		}
+	}
 	err = ri.output.SetRunId(ctx, sOffset.RunId)
 	if err != nil {
 		ri.logger.Errorf("output SetRunId error : offset(%v), err(%v)", sOffset, err)
